@@ -52,10 +52,21 @@ def main():
         return mod.main(ctx)
     except MachineryError as e:
         print(f"MACHINERY-ERROR {a.pid}: {e}", file=sys.stderr)
-        return 2
+        return partial(ctx, f"machinery error after these violations were found: {str(e)[:300]}")
     except Exception:
         traceback.print_exc()
-        return 2
+        return partial(ctx, "unexpected exception in the harness after these violations were found")
+
+
+def partial(ctx, why: str) -> int:
+    """A machinery failure must not swallow violations that were already established with a concrete witness: they are reported
+    (exit 1) if any of them is new; otherwise the run is a machinery failure (exit 2)."""
+    from common import finish, load_findings
+    known, _ = load_findings()
+    if any(v["sig"] not in known.get(ctx.pid, {}) for v in ctx.violations):
+        rc = finish(ctx, "model_checking", {"partial_run": True, "why": why, "exhaustive": False}, [why])
+        return rc or 2
+    return 2
 
 
 if __name__ == "__main__":
